@@ -565,6 +565,8 @@ class Interp:
             if len(v) != n:
                 self.raise_py('ValueError', node)
             return list(v)
+        if isinstance(v, Untracked):
+            return [Untracked() for _ in range(n)]          # an untracked value taken apart: untracked parts (a wrong length is a ValueError the contract does not see)
         raise Unsupported('unpack of %r' % (v,))
 
     def setitem(self, o, k, v, node):
@@ -2190,6 +2192,8 @@ class Interp:
                 if args[0] in o.m.fields:
                     return self.map_load(o.m, o.key, args[0])
                 return Untracked()
+            if attr == 'pop' and args and isinstance(args[0], str) and args[0] not in o.m.fields:
+                return Untracked()          # removing a record field the contract does not track: nothing tracked changes
         if isinstance(o, list):
             if attr == 'append' and len(args) == 1:
                 o.append(args[0])
